@@ -117,8 +117,12 @@ func drawMappingSpec(r *engine.PRNG, n *engine.Node) {
 			n.Offset = engine.F64(float64(r.Range(-100000, 100000)))
 		case 3:
 			n.Offset = 0
-		default: // a rounding residue instead of an exact zero
-			n.Offset = engine.F64([]float64{0.1 + 0.2 - 0.3, -1e-13, 1e-15, 4e-13}[r.Intn(4)])
+		default: // an integer (often 0) plus a rounding residue
+			k := 0.0
+			if r.Pct(40) {
+				k = float64(r.Range(-40, 40))
+			}
+			n.Offset = engine.F64(k + []float64{0.1 + 0.2 - 0.3, -1e-13, 1e-15, 4e-13, -3e-16, 2e-14}[r.Intn(6)])
 		}
 	}
 }
@@ -258,6 +262,13 @@ func (g *fleetGen) value(n *fgNode) float64 {
 		}
 	default:
 		v = float64(r.Range(1, 1000))
+		if r.Pct(35) { // powers of two and their float neighbours: binade boundaries of the interpolated mappings
+			v = nudge(math.Ldexp(1, r.Range(-12, 12)), r.Range(-2, 2))
+			if r.Pct(30) {
+				_, e := math.Frexp(n.centre)
+				v = nudge(math.Ldexp(1, e+r.Range(-2, 2)), r.Range(-2, 2))
+			}
+		}
 		if v < lo || v > hi {
 			v = mag()
 		}
